@@ -692,7 +692,14 @@ def rule_errors(ctx, res):
 
 def run(ctx, res):
     model = ctx.model
-    rule_once(ctx, res)
+    from . import c14eval
+    # evaluated first; the statement-form twin of a rule only where the
+    # evaluation could not follow the code
+    graph_ok = c14eval.report_graph(ctx, res)
+    walker_ok = c14eval.report_walker(ctx, res)
+    c14eval.report_prepend(ctx, res)
+    if not graph_ok:
+        rule_once(ctx, res)
     rule_visitor(ctx, res)
     rule_sync(ctx, res)
     n = 0
@@ -705,7 +712,8 @@ def run(ctx, res):
         res.vanished('R-C14-splice', B + ':_prepend_package_lua',
                      'splice site', 'no spliced line sequence found')
     rule_strip(ctx, res)
-    rule_errors(ctx, res)
+    if not (graph_ok and walker_ok):
+        rule_errors(ctx, res)
     from . import memo
     memo.rule_no_incomplete_memo(ctx, res, 'R-C14-once', 'pico8.build.build',
                                  'package loading')
